@@ -2205,7 +2205,8 @@ int32 matrixSslSentData(ssl_t *ssl, uint32 bytes)
     }
     /* Indicate the handshake is complete, in this case, the finished message
         is being/has been just sent. Occurs in session resumption. */
-    if (!(ssl->bFlags & BFLAG_HS_COMPLETE) &&
+    if (rc != MATRIXSSL_REQUEST_CLOSE &&
+        !(ssl->bFlags & BFLAG_HS_COMPLETE) &&
         matrixSslHandshakeIsComplete(ssl))
     {
         ssl->bFlags |= BFLAG_HS_COMPLETE;
